@@ -1417,6 +1417,29 @@ func modeSched(a args) {
 			subsetsMu.Unlock()
 		})
 	}
+	// 2c. shapes that need many stage goroutines at once: pipelines nested 10 deep, and 12 stages that each include
+	// a pipeline and run side by side (every one of them must get to run whatever else is in flight)
+	for v := 0; v < 2; v++ {
+		v := v
+		r := h.NewRand(int64(rnd.U64()), "deepwide")
+		add(func() {
+			if v == 0 {
+				leaf := &graphSpec{Stages: []stageSpec{{Name: "leaf", Outcome: oOK}, {Name: "leaf2", Deps: []string{"leaf"}, Outcome: oOK}}}
+				cur := leaf
+				for d := 0; d < 10; d++ {
+					cur = &graphSpec{Stages: []stageSpec{{Name: fmt.Sprintf("n%d", d), Outcome: oOK, Nested: cur}}}
+				}
+				explore(a, st, cur, true, 0, nil, false)
+				return
+			}
+			g := &graphSpec{}
+			for i := 0; i < 12; i++ {
+				g.Stages = append(g.Stages, stageSpec{Name: fmt.Sprintf("w%d", i), Outcome: oOK, Nested: &graphSpec{Stages: []stageSpec{{Name: "in", Outcome: oOK}}}})
+			}
+			g.Stages = append(g.Stages, stageSpec{Name: "last", Deps: []string{"w0", "w11"}, Outcome: oOK})
+			explore(a, st, g, false, a.n(3, 12), r, true)
+		})
+	}
 	// 3. cancelled runs (C03): Cancel / condition error at every explorer state of small DAGs
 	ncancel := div(a.n(120, 2500))
 	for i := 0; i < ncancel; i++ {
